@@ -37,11 +37,21 @@ impl Observer<Val, i64> for Probe {
   }
 }
 
+/// event `remit`: something to do on ANOTHER thread while the probe is inside a delivery (taken by the first call)
+static RACE: Mutex<Option<Box<dyn FnOnce() + Send>>> = Mutex::new(None);
+fn race_hook() {
+  let h = RACE.lock().unwrap().take();
+  if let Some(h) = h {
+    h()
+  }
+}
+
 struct ProbeT(Arc<Mutex<Vec<Notif>>>, Option<SubjectThreads<Val, i64>>);
 impl Observer<Val, i64> for ProbeT {
   fn next(&mut self, v: Val) {
     locktrace::on_cb(0);
     self.0.lock().unwrap().push(Notif::Next(v.clone()));
+    race_hook();
     if let (Some(s), Val::Int(i)) = (&self.1, &v) {
       if *i > 0 {
         s.clone().next(Val::Int(*i - 1));
@@ -284,6 +294,70 @@ fn run_threads(case: &Case, out: &mut Out) {
           Notif::Next(v) => s.next(v),
           Notif::Error(e) => s.error(e),
           Notif::Complete => s.complete(),
+        }
+        let sfx = suffix(case, &exec);
+        out.emit(k, drain(&log) + &sfx);
+      }
+      "temit" => {
+        // the emission is made from another OS thread (joined at once): sequentially the same thing
+        let mut s = ctx.subject(ev[1].nat());
+        let n = Notif::parse(&ev[2]);
+        let h = std::thread::spawn(move || match n {
+          Notif::Next(v) => s.next(v),
+          Notif::Error(e) => s.error(e),
+          Notif::Complete => s.complete(),
+        });
+        let _ = h.join();
+        let sfx = suffix(case, &exec);
+        out.emit(k, drain(&log) + &sfx);
+      }
+      "remit" => {
+        // (i, n) on this thread; while the probe is called for it, (j, m) on another thread
+        let first = (ev[1].nat(), Notif::parse(&ev[2]));
+        let second = (ev[3].nat(), Notif::parse(&ev[4]));
+        let s2 = ctx.subject(second.0);
+        let n2 = second.1.clone();
+        let started = Arc::new(std::sync::atomic::AtomicBool::new(false));
+        let slot: Arc<Mutex<Option<std::thread::JoinHandle<()>>>> = Arc::new(Mutex::new(None));
+        let (st2, slot2) = (started.clone(), slot.clone());
+        *RACE.lock().unwrap() = Some(Box::new(move || {
+          let st3 = st2.clone();
+          let h = std::thread::spawn(move || {
+            let mut s = s2;
+            st3.store(true, std::sync::atomic::Ordering::SeqCst);
+            match n2 {
+              Notif::Next(v) => s.next(v),
+              Notif::Error(e) => s.error(e),
+              Notif::Complete => s.complete(),
+            }
+          });
+          while !st2.load(std::sync::atomic::Ordering::SeqCst) {
+            std::thread::yield_now();
+          }
+          // the other thread is now inside (or blocked at the door of) the operator: give it time to get through if the
+          // door is open
+          std::thread::sleep(std::time::Duration::from_millis(40));
+          *slot2.lock().unwrap() = Some(h);
+        }));
+        {
+          let mut s = ctx.subject(first.0);
+          match first.1 {
+            Notif::Next(v) => s.next(v),
+            Notif::Error(e) => s.error(e),
+            Notif::Complete => s.complete(),
+          }
+        }
+        let unused = RACE.lock().unwrap().take();
+        if unused.is_some() {
+          // the probe was not called during the first emission: the second one follows on this thread
+          let mut s = ctx.subject(second.0);
+          match second.1 {
+            Notif::Next(v) => s.next(v),
+            Notif::Error(e) => s.error(e),
+            Notif::Complete => s.complete(),
+          }
+        } else if let Some(h) = slot.lock().unwrap().take() {
+          let _ = h.join();
         }
         let sfx = suffix(case, &exec);
         out.emit(k, drain(&log) + &sfx);
